@@ -731,8 +731,8 @@ static int parent_main(const Scenario& sc, const Options& opt) {
         if (is_crash) {
             if (!sc.crash_is_violation) {
                 agg.notes.push_back("process death outside this property's scope: " + v.key + " (replay " + v.path + ")");
+                // reported, but not as a violation of this property (memory safety / crashes are C26/C33/C35/C36)
                 out_lines.push_back("OUT-OF-SCOPE-CRASH property=" + sc.id + " key=" + v.key + " replay=" + v.path);
-                exit_code = std::max(exit_code, 3);
                 continue;
             }
             out_lines.push_back("VIOLATION property=" + sc.id + " replay=" + v.path + "  # " + v.key);
